@@ -31,14 +31,16 @@ GATES = ["ctor_calls", "parse_calls", "stream_runs", "exc:RTCMMessageError", "ex
          "long_error_runs", "line_budget_runs"]
 
 
-def _ctor(ctx, payload, labelmsm=1, tag="ctor"):
+def _ctor(ctx, payload, labelmsm=1, tag="ctor", rep=None):
     from pyrtcm import RTCMMessage
 
     libs = common.lib_errors()
     ctx.hit("ctor_calls")
     before = monitors.EVAL.get("field_ends_within_payload", 0)
+    rep = rep or streams.pick_rep(ctx.rng, 0.7)  # the same bytes as bytes / bytearray / subclass / memoryview
+    ctx.hit("rep:" + rep)
     try:
-        RTCMMessage(payload=payload, labelmsm=labelmsm)
+        RTCMMessage(payload=streams.as_rep(rep, payload), labelmsm=labelmsm)
         ctx.hit("ctor_ok")
         ok = True
     except libs as e:
@@ -46,24 +48,27 @@ def _ctor(ctx, payload, labelmsm=1, tag="ctor"):
         ok = False
     except Exception as e:
         ctx.violation("foreign-exception-constructor",
-                      f"RTCMMessage(payload={payload[:24].hex()}..[{len(payload)}B]) raised {type(e).__name__}: {e}",
-                      {"kind": "ctor", "payload": payload.hex(), "labelmsm": labelmsm})
+                      f"RTCMMessage(payload={payload[:24].hex()}..[{len(payload)}B] as {rep}) raised "
+                      f"{type(e).__name__}: {e}",
+                      {"kind": "ctor", "payload": payload.hex(), "labelmsm": labelmsm, "rep": rep})
         return
     steps = monitors.EVAL.get("field_ends_within_payload", 0) - before
     if steps > 3 * len(payload) * 8 + 70:
         ctx.violation("decode-steps-exceeded", f"{steps} field decodes for {len(payload)} payload bytes",
-                      {"kind": "ctor", "payload": payload.hex(), "labelmsm": labelmsm})
+                      {"kind": "ctor", "payload": payload.hex(), "labelmsm": labelmsm, "rep": rep})
         return
     ctx.case(b"ctor" + payload + bytes([labelmsm]), not ok)
 
 
-def _parse(ctx, buf, validate, labelmsm=1):
+def _parse(ctx, buf, validate, labelmsm=1, rep=None):
     from pyrtcm import RTCMReader
 
     libs = common.lib_errors()
     ctx.hit("parse_calls")
+    rep = rep or streams.pick_rep(ctx.rng, 0.7)
+    ctx.hit("rep:" + rep)
     try:
-        RTCMReader.parse(buf, validate=validate, labelmsm=labelmsm)
+        RTCMReader.parse(streams.as_rep(rep, buf), validate=validate, labelmsm=labelmsm)
         ctx.hit("parse_ok")
         ok = True
     except libs as e:
@@ -71,9 +76,9 @@ def _parse(ctx, buf, validate, labelmsm=1):
         ok = False
     except Exception as e:
         ctx.violation("foreign-exception-parse",
-                      f"RTCMReader.parse({buf[:24].hex()}..[{len(buf)}B], validate={validate}) raised "
+                      f"RTCMReader.parse({buf[:24].hex()}..[{len(buf)}B] as {rep}, validate={validate}) raised "
                       f"{type(e).__name__}: {e}",
-                      {"kind": "parse", "buf": buf.hex(), "validate": validate, "labelmsm": labelmsm})
+                      {"kind": "parse", "buf": buf.hex(), "validate": validate, "labelmsm": labelmsm, "rep": rep})
         return
     ctx.case(b"parse" + buf + bytes([validate, labelmsm]), not ok)
 
@@ -131,7 +136,8 @@ def _stream(ctx, data, plan, mode, validate, pseed, backend, bparam):
     feeder = None
     if backend == "file":
         cls = doubles.SeekableRecordingStream if pseed % 3 == 0 else doubles.RecordingStream
-        stream = cls(data, plan, rng=random.Random(pseed), budget=2 * budget)
+        stream = cls(data, plan, rng=random.Random(pseed), budget=2 * budget,
+                     rtype=bytearray if bparam.get("rtype") == "bytearray" else None)
     elif backend in ("pipe", "makefile"):
         inner, feeder = (doubles.pipe_file if backend == "pipe" else doubles.makefile_stream)(data)
         stream = doubles.CountingStream(inner, budget)
@@ -439,16 +445,17 @@ def run(ctx):
             ncalls = max(1, c01.count_calls(data))
             plan = {rng.randrange(ncalls): rng.choice(("short", "short", "empty", "eof", "partial"))
                     for _ in range(rng.choice((0, 1, 2, 4, 8)))}
-            _stream(ctx, data, plan, mode, validate, rng.getrandbits(16), "file", {"labelmsm": rng.choice((1, 2))})
+            _stream(ctx, data, plan, mode, validate, rng.getrandbits(16), "file", {"labelmsm": rng.choice((1, 2)),
+                                                                                "rtype": rng.choice(("bytes", "bytes", "bytearray"))})
 
 
 def replay(ctx, p):
     common.quiet_logging()
     monitors.install_field_monitor()
     if p["kind"] == "ctor":
-        _ctor(ctx, bytes.fromhex(p["payload"]), p.get("labelmsm", 1))
+        _ctor(ctx, bytes.fromhex(p["payload"]), p.get("labelmsm", 1), rep=p.get("rep", "bytes"))
     elif p["kind"] == "parse":
-        _parse(ctx, bytes.fromhex(p["buf"]), p["validate"], p.get("labelmsm", 1))
+        _parse(ctx, bytes.fromhex(p["buf"]), p["validate"], p.get("labelmsm", 1), rep=p.get("rep", "bytes"))
     elif p["kind"] == "plain":
         _plain_stream(ctx, bytes.fromhex(p["data"]), p["mode"], p["validate"], p["stream"], p.get("label", "replay"))
     else:
